@@ -31,6 +31,8 @@ def setup(mpi="block", path=None):
         from . import fakempi
         fakempi.install()
     warnings.filterwarnings("ignore", message="mpi4py isn't installed")
+    import logging
+    logging.disable(logging.INFO)     # the library logs every k-centers step at INFO
     import enspara
     f = os.path.realpath(enspara.__file__)
     if not f.startswith(os.path.realpath(src) + os.sep):
